@@ -41,6 +41,7 @@ func vfC07Run(c vfSerCase, ctx *vfCtx) *vfViolation {
 	before := src.battery(maxBattery)
 	nRemovedBefore := len(src.gone)
 
+	nLiveAtWrite := len(src.live)
 	stream, reported, parts, err := src.write()
 	if err != nil {
 		return vfFail("%s WriteTo failed: %v", c.Kind, err)
@@ -168,7 +169,20 @@ func vfC07Run(c vfSerCase, ctx *vfCtx) *vfViolation {
 	if ok, why := vfBatteriesEqual(src.fullScan(), dst.fullScan()); !ok && !approxHNSW {
 		return vfFail("%s: full scan of the reloaded index differs from the source: %s", c.Kind, why)
 	}
-	for _, id := range vfSortedU32Bool(src.live) {
+	sweep := vfSortedU32Bool(src.live)
+	for si, id := range sweep {
+		if si == len(sweep)/2 && si > 0 && !approxHNSW {
+			// half-way: both flush (documents that came from the stream are now physically dropped from
+			// the reloaded index) and must still agree
+			ea, eb := src.flushNow(), dst.flushNow()
+			if (ea == nil) != (eb == nil) {
+				return vfFail("%s: Flush after removals: source %v, reloaded %v", c.Kind, ea, eb)
+			}
+			if ok, why := vfBatteriesEqual(src.fullScan(), dst.fullScan()); !ok {
+				return vfFail("%s: after removing %d documents from both and flushing both, the reloaded index answers differently from the source: %s", c.Kind, si, why)
+			}
+			ctx.Class("flush_after_removing_reloaded_documents")
+		}
 		a, b := src.removeOne(id), dst.removeOne(id)
 		if a != b {
 			return vfFail("%s: removing document %d succeeds on one of source / reloaded index only (source %v, reloaded %v)", c.Kind, id, a, b)
@@ -187,11 +201,12 @@ func vfC07Run(c vfSerCase, ctx *vfCtx) *vfViolation {
 		}
 	}
 	trained := c.Kind == "ivf" || c.Kind == "pq" || c.Kind == "ivfpq"
-	if nonEmpty && (len(src.live) >= 3 && nRemovedBefore >= 1 || trained && !c.Untrained) {
+	if nonEmpty && (nLiveAtWrite >= 3 && nRemovedBefore >= 1 || trained && !c.Untrained) {
 		ctx.NonTrivial()
 	}
 	ctx.ClassIf(c.Untrained, "untrained_state")
-	ctx.ClassIf(len(src.live) == 0, "empty_or_all_removed_state")
+	ctx.ClassIf(nLiveAtWrite == 0, "empty_or_all_removed_state")
+	ctx.ClassIf(nLiveAtWrite >= 8, "eight_or_more_live_documents_in_the_stream")
 	ctx.ClassIf(nRemovedBefore > 0, "removals_before_write")
 	return nil
 }
